@@ -71,7 +71,7 @@ class CoreProp(PropBase):
             c = dict(cfg)
             c["prog"] = cand
             yield c
-        if cfg["sched"] != "eager" and "rr" not in self.ID:
+        if cfg["sched"] != "eager" and "eager" in self.scheds:
             c = dict(cfg)
             c["sched"] = "eager"
             yield c
